@@ -21,6 +21,10 @@ package redisemu
 // LPOS: the comparison budget (MAXLEN, or the list length) and the rank when the scan starts
 //@ ghost gMax0 int
 //@ ghost gRank0 int
+// LTRIM: the list as it was found (node sequence and length)
+//@ ghost gSeq0 seqof:*listItem
+//@ ghost gN0 int
+//@ ghost gTrimHead int
 
 // nothing outside the list passed in is touched: every other list (and its nodes) is as before
 //@ define listsframe
@@ -81,6 +85,7 @@ package redisemu
 //@ func dataStoreCommand.lpopUnlocked
 //@ mode int
 //@ include listhelper
+//@ ensures [C06] gone: list.count == 0 ==> !dsc.ds.data.vdom[keyName]
 //@ include otherlists
 //@ ensures [C10] ver.mut: (mutated && !old(mutated)) ==> bumped || removedKey || lookupAbsent
 //@ requires [C03] wf: list != nil && listWF(list) && list.count > 0
@@ -97,6 +102,7 @@ package redisemu
 //@ func dataStoreCommand.rpopUnlocked
 //@ mode int
 //@ include listhelper
+//@ ensures [C06] gone: list.count == 0 ==> !dsc.ds.data.vdom[keyName]
 //@ include otherlists
 //@ ensures [C10] ver.mut: (mutated && !old(mutated)) ==> bumped || removedKey || lookupAbsent
 //@ requires [C03] wf: list != nil && listWF(list) && list.count > 0
@@ -111,6 +117,7 @@ package redisemu
 //@ func dataStoreCommand.removeUnlocked
 //@ mode int
 //@ include listhelper
+//@ ensures [C06] gone: list.count == 0 ==> !dsc.ds.data.vdom[keyName]
 //@ ensures [C10] ver.mut: (mutated && !old(mutated)) ==> bumped || removedKey || lookupAbsent
 //@ requires [C03] wf: list != nil && listWF(list) && item != nil && item.owner == list && 0 <= item.idx && item.idx < list.count && list.seq[item.idx] == item
 //@ ghostafter "list.count--" : bulk listItem.idx r = ite(r.owner == list && r != item && r.idx > old(item.idx), r.idx - 1, r.idx)
